@@ -21,7 +21,7 @@ RULE = ("Cases: a document pair, the types of the two files (json, json5, yaml; 
         "edit has non-zero cost); (b) -k == --dict-strategy none; -j == -jl -jd; --from-T == --from-mime mime(T) and "
         "--to-T == --to-mime mime(T) for every registered type T able to read the file; (c) the same bytes stored under "
         "a misleading extension with an explicit --from-T / --to-T / --from-mime / --to-mime give the output obtained "
-        "with the honest extension, for each file position independently. Non-trivial: the two files have different "
+        "with the honest extension, for each file position independently (also right after an invocation that let the name decide, and with one file given in both positions but read as two types). Non-trivial: the two files have different "
         "types and the explicit type differs from the one the name suggests. Distinct by case hash.")
 ASSUMPTIONS = [
     "file types are limited to the JSON family (json, json5, yaml) for mixed-type pairs: XML and plist mixed with other types are covered by C09/C13 findings",
@@ -179,6 +179,9 @@ def check(case):
                 continue
             pm = mk(data, mis, 'M' + pos)
             pair = [pm, pb] if pos == 'from' else [pa, pm]
+            # first let the name decide (whatever that gives), then ask explicitly: an earlier lookup of the same path in
+            # the same process must not stick
+            cli.run_main(pair + ba)
             for spelling in ([f'--{pos}-{t}'], [f'--{pos}-mime', FT[t].default_mimetype]):
                 r = cli.run_main(pair + ba + spelling)
                 if not same(r):
@@ -187,6 +190,18 @@ def check(case):
                     break
             if ft != tt:
                 nontrivial = True
+        # (d) the same file in both positions, the second one read as another type: command line vs library
+        other = next(t for t in TYPES if t != ft)
+        if ft != 'yaml' or True:
+            case2 = dict(case, tt=other)
+            r = cli.run_main([pa, pa] + ba + [f'--to-{other}'])
+            try:
+                lib = library(case2, pa, pa)
+            except Exception:
+                lib = None          # the other parser rejects these bytes: nothing to compare
+            if lib is not None and r.exc is None and r.rc in (0, 1) and (r.out, r.rc) != lib:
+                out.fail('explicit-to-type-not-used', f"the same {ft} file as FROM and TO with --to-{other}: command rc={r.rc} out={r.out[:120]!r}; "
+                                                      f"library (second side read as {other}) rc={lib[1]} out={lib[0][:120]!r}")
         out.nontrivial = nontrivial
     finally:
         cli.cleanup_files(*files)
